@@ -88,6 +88,14 @@ func loopBody(body []lStmt, e lElem, silent bool) (string, int) {
 		case "val":
 			out.WriteString(e.v)
 		case "let", "fnlit":
+		case "innersep":
+			// separator idiom: a variable of the outer body assigned inside the inner loop
+			for j, x := range st.inner {
+				if j > 0 {
+					out.WriteString(",")
+				}
+				out.WriteString(fmt.Sprint(x))
+			}
 		case "inner":
 			var in strings.Builder
 			for j, x := range st.inner {
@@ -160,6 +168,8 @@ func printMulti(body []lStmt, d int) string {
 			sb.WriteString("<% let q = 5 %>")
 		case "fnlit":
 			sb.WriteString("<% let g = fn(a) { return a } %>")
+		case "innersep":
+			fmt.Fprintf(&sb, "<%% let sep%d = \"\" %%><%%= for (k%d, v%d) in %s { %%><%%= sep%d %%><%%= v%d %%><%% sep%d = \",\" %%><%% } %%>", d, d+1, d+1, intsLit(st.inner), d, d+1, d)
 		case "inner":
 			tag := "<%="
 			if st.form == 1 {
@@ -287,6 +297,9 @@ func (g *c08Gen) body(depth, nElems int, single bool) []lStmt {
 		case k == 5:
 			out = append(out, lStmt{kind: "fnlit"})
 			g.classes["fn-literal-in-body"] = true
+		case k == 6 && depth > 0 && !single && g.r.Chance(1, 3):
+			out = append(out, lStmt{kind: "innersep", inner: []int{7, 8, 9}[:g.r.Range(1, 3)]})
+			g.classes["inner-loop-assigning-outer-variable"] = true
 		case k == 6 && depth > 0:
 			sub := &c08Gen{r: g.r, classes: g.classes, vals: []string{"7", "8", "9"}, valSrc: []string{"7", "8", "9"}}
 			in := lStmt{kind: "inner", inner: []int{7, 8, 9}[:g.r.Range(0, 3)], body: sub.body(depth-1, 3, single)}
@@ -621,6 +634,8 @@ func c08ControlFree(body []lStmt) bool {
 		switch st.kind {
 		case "ctl", "retv":
 			return false
+		case "innersep":
+			return false // the unrolled form would re-declare the separator per element: compare with the reference only
 		case "inner", "ifblk":
 			if !c08ControlFree(st.body) {
 				return false
